@@ -47,6 +47,16 @@ SP_OUTPUTS = [
     "def g(a=1, b=2): pass\nclass D:\n    def m(self, a, b=4): pass\n    def n(cls, a=1): pass\na: str = 'q'\nb = 0\n",
     "class Config:\n    dataset_name: str = 'cifar'\n    lr: float = 0.5\ndef train(dataset_name: str = 'b', lr: int = 1, *, opt: str = 'y', k=2): pass\n",
 ]
+# modules that keep text in multi-line literals (a line of blanks, a line of tabs, odd indentation) next to the
+# parameters; pools of their own: SP_INPUTS / SP_OUTPUTS are drawn from by other checks too
+SP_TEXT_INPUTS = [
+    "USAGE = \"\"\"Usage:\n    \n  run --fast\n\"\"\"\nsep: str = '''\n\t\n'''\nclass C:\n    a: int = 1\n    HELP: str = '''a:\n      \n\tthe a\n    '''\n"
+    "def f(a: Optional[str], b: int = 3):\n    return a\n",
+]
+SP_TEXT_OUTPUTS = [
+    "BANNER = \"\"\"Usage:\n    \n  run --fast\n\"\"\"\ndef g(c: int, d: str = 'dd'):\n    \"\"\"g doc\"\"\"\n    print('''\n \t\n    indented\n\t''')\n    return c, BANNER\n"
+    "class D:\n    x: int = 0\n    TABLE = '''a\tb\n\t\n1\t2'''\n    def m(self, x, y=2): pass\n",
+]
 
 
 # ------------------------------------------------------------------ externals supplied to the model
@@ -159,10 +169,16 @@ def gen(rng, n, tier="quick"):
 
     def module(pool):
         if rng.random() < 0.35:
+            if rng.random() < 0.15:
+                return rng.choice((SP_TEXT_INPUTS if pool is SP_INPUTS else SP_TEXT_OUTPUTS if pool is SP_OUTPUTS
+                                   else SP_TEXT_INPUTS + SP_TEXT_OUTPUTS))
             return rng.choice(pool)
         if rng.random() < 0.04:
             return rng.choice(SPECIAL)
-        return GM.gen_module(rng, depth=rng.choice([1, 2, 2, 3]), max_items=rng.choice([3, 6]))
+        # two modules in five also carry multi-line text constants (lines of blanks only, odd indentation) at module
+        # level, in class bodies and in function bodies: values that must survive the rewrite of the file untouched
+        return GM.gen_module(rng, depth=rng.choice([1, 2, 2, 3]), max_items=rng.choice([3, 6]),
+                             text_blocks=rng.choice([0.0, 0.0, 0.0, 0.2, 0.35]))
 
     def choose_pairs(itree, otree, k):
         ilocs = _leaf_locs(itree, containers=rng.random() < 0.1) or ["a"]
